@@ -17,6 +17,10 @@ mod ledger;
 mod impgen;
 mod c17;
 mod c16;
+mod syntax_term;
+mod fmtworker;
+mod c19;
+mod c05fmt;
 
 pub struct Opts {
     pub seed: u64,
@@ -87,6 +91,9 @@ fn main() {
         "c11-child" => c11::child(&args[2..]),
         "c17" => c17::run(&o),
         "c16" => c16::run(&o),
+        "c19" => c19::run(&o),
+        "c05fmt" => c05fmt::run(&o),
+        "fmt-worker" => fmtworker::serve(),
         _ => {
             eprintln!("unknown property {}", prop);
             std::process::exit(2);
